@@ -8,6 +8,7 @@ import Driver.FramerOps
 import Driver.PayloadOps
 import Driver.DevIdOps
 import Driver.AsyncOps
+import Driver.SchedOps
 open Lean Driver
 
 def dispatch (j : Json) : P Json := do
@@ -30,6 +31,7 @@ def dispatch (j : Json) : P Json := do
   | "lrc" => opLrc j
   | "crctable" => opCrcTable j
   | "async" => opAsync j
+  | "sched" => opSched j
   | o => throw s!"bad-op {o}"
 
 def handle (line : String) : String :=
